@@ -95,7 +95,16 @@ def case_strategy(draw):
     if fault == "missing_column":
         case["column"] = draw(st.sampled_from(["ra", "dec", "w", "z"]))
     if fault == "unequal_length":
-        case["column"] = draw(st.sampled_from(["dec", "w", "z"]))
+        # one column is shorter or longer than the others (by one row, or by surplus rows that
+        # fill whole chunks); also with a chunk size that divides the length of the ra column
+        case["column"] = draw(st.sampled_from(["dec", "w", "z", "ra"]))
+        case["delta"] = draw(st.sampled_from([-1, -1, 1, c, 2 * c + 1]))
+        if draw(st.booleans()):
+            case["n"] = n = nchunks * c
+            for k in ("ra", "dec", "w", "z"):
+                table[k] = (table[k] * 2)[:n]
+            if table.get("pid") is not None:
+                table["pid"] = (table["pid"] * 2)[:n]
     if fault.startswith("inject"):
         case["call"] = draw(st.integers(1, 6))
     return case
@@ -214,7 +223,9 @@ def run_case(case):
             src = sources.write_source("hdf5", table, tmp)
             with h5py.File(src, "a") as f:
                 col = case["column"]
-                data = f[col][:-1]
+                data = f[col][:]
+                d = int(case.get("delta", -1))
+                data = data[:d] if d < 0 else np.concatenate([data, np.resize(data, d)])
                 del f[col]
                 f.create_dataset(col, data=data)
             table_or_path = src
